@@ -354,6 +354,17 @@ pub fn run(scn: &Scenario, record: bool) -> RunResult {
             None => match scn.sched.then.as_str() {
                 "fifo" => choices[0].clone(),
                 "lifo" => choices[choices.len() - 1].clone(),
+                // application tasks first (in task order), then byte deliveries and the peer, the connection tasks last:
+                // several handle calls happen without the connection being polled in between, and received bytes are
+                // already there when it finally runs
+                "appfirst" => {
+                    let rank = |c: &Ch| match c {
+                        Ch::Poll(i) => if slots[*i].task.is_conn() { 3 } else { 0 },
+                        Ch::Deliver(_) => 1,
+                        Ch::Peer => 2,
+                    };
+                    choices.iter().min_by_key(|c| rank(c)).unwrap().clone()
+                }
                 _ => choices[rng.gen_range(0..choices.len())].clone(),
             },
         };
